@@ -69,3 +69,10 @@ Definition sx_tentry (t : tentry) : sx :=
   | TSetRem s => SL [SA "set_item_removed"; sx_str s]
   end.
 Definition sx_text (l : list tentry) : sx := sx_sorted_list sx_tentry l.
+
+(* DeepHash of a set member as DeepDiff computes it (default options, hasher
+   replaced by the injective hex hasher: same equality pattern as SHA-256, so the
+   tag collisions of finding K1 - 'NONE' vs None, 'int:1' vs 1 ... - are inside
+   the model).  The shared ==-keyed memo table (finding K2) is not. *)
+From DD Require Import Hash.HashModel.
+Definition hatom_deep (a : atom) : pystr := hash_atom hexhash default_opts a.
